@@ -5,6 +5,7 @@ A route is stored with its service tag and the list of route-level layers around
 Patterns with `:param` segments are outside the modelled class.
 -/
 import AnemoModel.Basic
+import AnemoModel.Gen.Tables
 namespace Anemo
 
 inductive Pattern where
@@ -33,18 +34,26 @@ structure Entry where
 
 abbrev Table := List Entry
 
-/-- parse a route string of the modelled class; `none` = `Router::route` panics -/
+/-- split at the first '*' -/
+def splitStar : Bytes → Option (Bytes × Bytes)
+  | [] => none
+  | c :: rest =>
+    if c = 0x2a then some ([], rest)
+    else match splitStar rest with
+      | some (a, b) => some (c :: a, b)
+      | none => none
+
+/-- parse a route string of the modelled class; `none` = `Router::route` panics (or the pattern has
+a `:param` segment, which is not modelled) -/
 def parsePattern (path : Bytes) : Option Pattern :=
   match path with
   | [] => none
   | c :: _ =>
     if c != slash then none
     else
-      match path.idxOf? 0x2a with     -- '*'
-      | none => if path.contains 0x3a then none else some (.exact path)   -- ':' = param segment, not modelled
-      | some i =>
-        let pre := path.take i
-        let name := path.drop (i + 1)
+      match splitStar path with
+      | none => if path.contains 0x3a then none else some (.exact path)
+      | some (pre, name) =>
         if pre.getLast? == some slash && !name.isEmpty && !name.contains slash && !name.contains 0x2a
             && !name.contains 0x3a && !pre.contains 0x3a then some (.catchAll pre) else none
 
@@ -57,7 +66,7 @@ def Table.route (t : Table) (path : Bytes) (svc : Nat) : Option Table :=
   | some p => t.insert { pat := p, svc := svc, layers := [] }
 
 def Table.addRpcService (t : Table) (name : Bytes) (svc : Nat) : Option Table :=
-  t.route ([slash] ++ name ++ [slash, 0x2a, 0x72, 0x65, 0x73, 0x74]) svc     -- "/<name>/*rest"
+  t.route (Gen.rpcRoutePatternGen name) svc     -- "/<name>/*rest", the format string of add_rpc_service
 
 /-- re-register every route of `b` (with its layers) into `a`, in registration order -/
 def Table.merge (a : Table) : Table → Option Table
